@@ -2,6 +2,7 @@
 from ..core import Composite
 from ..kernel_prop import KernelProp
 from ..startup_prop import StartupProp
+from .c08 import C08
 
 
 class C12Kernel(KernelProp):
@@ -50,13 +51,30 @@ class C12Startup(StartupProp):
         return len(case["prog"]) >= 2 and any(e["l"][0] == "regTd" for e in impl["trace"])
 
 
+class C12Tasks(C08):
+    """Service tasks started in root and nested contexts and by components: the task's own context has the context
+    that was current where it was started as its parent. (Observed directly; the service-task model is C08's.)"""
+    id = "C12"
+    tags = ("C12",)
+
+    def model_request(self, case, impl):
+        return None
+
+    def compare(self, case, impl, model):
+        return None
+
+    def nontrivial(self, case, impl):
+        return any(e["l"][0] == "taskSaw" for e in impl["trace"])
+
+
 class C12(Composite):
     id = "C12"
     quick_cases = C12Kernel.quick_cases
     thorough_cases = C12Kernel.thorough_cases
-    parts = [(6, C12Kernel()), (1, C12Startup())]
+    parts = [(12, C12Kernel()), (2, C12Startup()), (1, C12Tasks())]
     rule = C12Kernel.rule + ("; one case in seven is a component tree start-up (as in C05) where every prepare()/start() "
-                             "samples current_context() and creates/enters/leaves a nested context")
+                             "samples current_context() and creates/enters/leaves a nested context; one in fifteen is a C08 program "
+                             "whose service tasks check the parent of the context they run in")
     assumptions = C12Kernel.assumptions
 
 
